@@ -34,6 +34,8 @@ KEYS = {
     'a.NRb.NR': ([('NR', 'NR')], 'a.NR == b.NR'),
     'a1bNR': ([(0, 'NR')], 'a1 == bNR'),
     'a1b1+NR': ([(0, 0), ('NR', 'NR')], 'a1 == b1 and NR == bNR'),
+    'a1b1+a1b2': ([(0, 0), (0, 1)], 'a1 == b1 and a1 == b2'),
+    'NRbNR+NRb1': ([('NR', 'NR'), ('NR', 0)], 'NR == bNR and aNR == b1'),
     'NR+a1b1': ([('NR', 'NR'), (0, 0)], 'aNR == b.NR and b1 == a1'),
     'a1bNR+a2b1': ([(0, 'NR'), (1, 0)], 'a1 == bNR and a2 == b1'),
 }
@@ -96,7 +98,7 @@ def _build():
                 kw = dict(krange=3)
             else:
                 kw = dict(krange=2)
-            quick = (key, down) in (('b1a1', 'a1b2'), ('two', 'star'), ('a1b1+NR', 'a1b2'), ('a1b1+NR', 'star'), ('a1bNR+a2b1', 'a1b2'), ('NR+a1b1', 'update'), ('NRbNR', 'a1b2'), ('aNRb1', 'update'), ('a1=b1', 'update'), ('three', 'a1b2'), ('a1bNR', 'star'), ('twoX', 'a1b2'), ('a.NRb.NR', 'star'))
+            quick = (key, down) in (('b1a1', 'a1b2'), ('a1b1+a1b2', 'a1b2'), ('a1b1+a1b2', 'star'), ('NRbNR+NRb1', 'a1b2'), ('two', 'star'), ('a1b1+NR', 'a1b2'), ('a1b1+NR', 'star'), ('a1bNR+a2b1', 'a1b2'), ('NR+a1b1', 'update'), ('NRbNR', 'a1b2'), ('aNRb1', 'update'), ('a1=b1', 'update'), ('three', 'a1b2'), ('a1bNR', 'star'), ('twoX', 'a1b2'), ('a.NRb.NR', 'star'))
             _add('%s[%s|%s]' % (kind, key, down), kind, key, down, a, b, quick=quick, **kw)
     # ragged B (short record must raise), ragged A (missing key field), empty tables, duplicate-heavy 3x3
     _add('inner[a2b1|raggedA]', 'inner', 'a2b1', 'a1b2', ['ii', 'i'], ['ii', 'ii'], quick=True)
@@ -106,6 +108,12 @@ def _build():
     for nm, bshape in (('w3-1-2', ['kkk', 'k', 'kk']), ('w1-3-2-1', ['k', 'kkk', 'kk', 'k']), ('w2-3-1-2', ['kk', 'kkk', 'k', 'kk'])):
         _add('left[a1b1|nullwidth-%s]' % nm, 'left', 'a1b1', 'bnr', ['kk', 'kk'], bshape, quick=(nm == 'w3-1-2'), krange=2)
         _add('leftouter[a1b1|nullwidth-star-%s]' % nm, 'leftouter', 'a1b1', 'star', ['kk'], bshape, quick=(nm != 'w3-1-2'), krange=3)
+    # None is a key value like any other (single-key joins; None in the FIRST A records)
+    for kind in ('inner', 'left', 'strict'):
+        _add('%s[a1b1|nonekey]' % kind, kind, 'a1b1', 'a1b2', ['ni', 'oi', 'ni'], ['ni', 'oi'], quick=(kind != 'strict'), slen=1)
+    _add('left[a1b1|emptyB-update]', 'left', 'a1b1', 'update', ['ii', 'ii'], [], quick=True)
+    _add('left[a1b1|emptyB-updateNU]', 'left', 'a1b1', 'updateNU', ['ii', 'ii'], [], quick=True)
+    _add('left[NRbNR|emptyrowB-update]', 'left', 'NRbNR', 'update', ['kk', 'kk'], ['', 'kk'], quick=True, krange=3)
     _add('left[a1b1|emptyB]', 'left', 'a1b1', 'star', ['ii', 'ii'], [])
     _add('inner[a1b1|emptyA]', 'inner', 'a1b1', 'star', [], ['ii'])
     _add('strict[a1b1|emptyB]', 'strict', 'a1b1', 'a1b2', ['ki'], [], krange=2)
